@@ -123,7 +123,11 @@ namespace awkward {
   void
   GrowableBuffer<T>::append(T datum) {
     if (length_ == reserved_) {
-      set_reserved((int64_t)ceil(reserved_ * options_.resize()));
+      int64_t newreserved = (int64_t)ceil(reserved_ * options_.resize());
+      if (newreserved <= reserved_) {
+        newreserved = reserved_ + 1;
+      }
+      set_reserved(newreserved);
     }
     ptr_.get()[length_] = datum;
     length_++;
